@@ -36,14 +36,17 @@ GoodC(c) == c = "S_same_pl"
 Undecodable(c) == c = "S_same_foreign"
 Succ(c) == Status(c) = "Success"
 
-VARIABLES api, n, hdr, items, pc, outcome, carries, lenient
-vars == <<api, n, hdr, items, pc, outcome, carries, lenient>>
+VARIABLES api, n, hdr, items, idpat, pc, outcome, carries, lenient
+vars == <<api, n, hdr, items, idpat, pc, outcome, carries, lenient>>
 
 Shapes(k) == [1..k -> ItemClasses]
 Init == /\ api \in Apis
         /\ n \in 1..MaxItems /\ (api # "Batch" => n = 1)
         /\ hdr \in {"match", "less", "more"}              \* header batch count relative to the number of items sent
         /\ \E k \in {n - 1, n, n + 1} : items \in Shapes(k)
+        \* which unique batch item ids the response items echo: their own, all the first one's, none, swapped.
+        \* Items are matched by position; the echoed ids never change what the caller must get.
+        /\ idpat \in IF api = "Batch" /\ n = 2 /\ hdr = "match" /\ Len(items) = 2 THEN {"own", "dup", "none", "swap"} ELSE {"own"}
         /\ pc = "recv" /\ outcome = "none" /\ carries = FALSE /\ lenient = FALSE
 
 \* content of another operation under the requested operation code: the decoder of the requested payload
@@ -56,14 +59,14 @@ Recv == /\ pc = "recv"
         /\ \/ /\ \E i \in 1..Len(items) : Undecodable(items[i])
               /\ pc' = "done" /\ outcome' = "error" /\ UNCHANGED lenient
            \/ /\ pc' = "counts" /\ lenient' = (\E i \in 1..Len(items) : Undecodable(items[i])) /\ UNCHANGED outcome
-        /\ UNCHANGED <<api, n, hdr, items, carries>>
+        /\ UNCHANGED <<api, n, hdr, items, idpat, carries>>
 
 \* header count = number of items = number of request items
 Counts == /\ pc = "counts"
           /\ IF hdr # "match" \/ Len(items) # n
              THEN pc' = "done" /\ outcome' = "error"
              ELSE pc' = "items" /\ UNCHANGED outcome
-          /\ UNCHANGED <<api, n, hdr, items, carries, lenient>>
+          /\ UNCHANGED <<api, n, hdr, items, idpat, carries, lenient>>
 
 \* per item: a successful item must echo the requested operation and carry its payload
 Items == /\ pc = "items"
@@ -75,7 +78,7 @@ Items == /\ pc = "items"
                  ELSE /\ outcome' = "error"
                       /\ carries' = ~Succ(items[1])               \* a non-successful item is surfaced with its status/reason/message
          /\ pc' = "done"
-         /\ UNCHANGED <<api, n, hdr, items, lenient>>
+         /\ UNCHANGED <<api, n, hdr, items, idpat, lenient>>
 
 Next == Recv \/ Counts \/ Items
 Spec == Init /\ [][Next]_vars
@@ -96,5 +99,5 @@ GoodAccepted ==
     Done /\ hdr = "match" /\ Len(items) = n /\ (\A i \in 1..n : Good(items[i])) => outcome = IF api = "Batch" THEN "items" ELSE "payload"
 Inv == OutcomeDefined /\ NoForeignSuccess /\ PayloadOnlyIfGood /\ FailureSurfaced /\ GoodAccepted
 
-History == [api |-> api, n |-> n, hdr |-> hdr, items |-> items, outcome |-> outcome, carries |-> carries, lenient |-> lenient]
+History == [api |-> api, n |-> n, hdr |-> hdr, items |-> items, idpat |-> idpat, outcome |-> outcome, carries |-> carries, lenient |-> lenient]
 =============================================================================
